@@ -42,14 +42,15 @@ type Waiter interface {
 
 // Task is one simulated goroutine.
 type Task struct {
-	ID     int
-	Name   string
-	state  atomic.Int32
-	wait   Waiter
-	site   string
-	resume chan struct{}
-	sim    *Sim
+	ID       int
+	Name     string
+	state    atomic.Int32
+	wait     Waiter
+	site     string
+	resume   chan struct{}
+	sim      *Sim
 	selCount int
+	prio     int
 }
 
 // Event is one scheduling decision.
@@ -122,6 +123,11 @@ type Sim struct {
 	clock     int64
 	switchPct int
 	force     bool
+	// scheduling strategy (0 = uniform with switch probability)
+	strategy  int
+	pctChange []int
+	pctLow    int
+	starveID  int
 	// preemption
 	preemptOn   bool
 	pcount      int
@@ -134,6 +140,12 @@ type Sim struct {
 	runnableBuf []*Task
 	rootSync    int64
 }
+
+const (
+	stratUniform = iota
+	stratPCT
+	stratStarve
+)
 
 var theSim *Sim
 
@@ -209,7 +221,24 @@ func Run(cfg Config, main func()) *Result {
 	s.hash = 0xcbf29ce484222325
 	s.probes = make([]int64, len(probeNames))
 	s.runnableBuf = make([]*Task, 0, 16)
-	switch s.tape.S.Draw(6) {
+	switch s.tape.S.Draw(9) {
+	case 6, 7:
+		// PCT-style: every task gets a random priority when created, the
+		// runnable task of highest priority always runs, and at d change
+		// points (scheduling decisions drawn from [0, horizon)) the running
+		// task drops below every other task.
+		s.strategy = stratPCT
+		s.switchPct = 50
+		horizon := []int{20, 100, 500, 3000}[s.tape.S.Draw(4)]
+		for d := 1 + s.tape.S.Draw(3); d > 0; d-- {
+			s.pctChange = append(s.pctChange, s.tape.S.Draw(horizon))
+		}
+		s.pctLow = 1 << 30
+	case 8:
+		// starve-one: one task (chosen by id) only runs when nothing else can
+		s.strategy = stratStarve
+		s.switchPct = []int{10, 50, 100}[s.tape.S.Draw(3)]
+		s.starveID = s.tape.S.Draw(6)
 	case 0:
 		s.switchPct = 50
 	case 1:
@@ -260,6 +289,9 @@ func Run(cfg Config, main func()) *Result {
 func (s *Sim) newTask(name string) *Task {
 	t := &Task{ID: s.nextID, Name: name, sim: s, resume: make(chan struct{})}
 	s.nextID++
+	if s.strategy == stratPCT {
+		t.prio = 1<<30 + 1 + s.tape.S.Draw(1<<16)
+	}
 	t.state.Store(stParked)
 	s.tasks = append(s.tasks, t)
 	s.live++
@@ -389,7 +421,49 @@ func (s *Sim) loop() *Result {
 		}
 		if n > 1 {
 			s.decisions++
-			if curIdx >= 0 {
+			switch {
+			case s.strategy == stratPCT && !s.force:
+				for _, c := range s.pctChange {
+					if c == s.decisions && curIdx >= 0 {
+						s.pctLow--
+						run[curIdx].prio = s.pctLow
+					}
+				}
+				for i, t := range run {
+					if t.prio > run[pick].prio || (t.prio == run[pick].prio && t.ID < run[pick].ID) {
+						pick = i
+					}
+				}
+			case s.strategy == stratStarve && !s.force:
+				// candidates: everybody but the starved task
+				victim := -1
+				for i, t := range run {
+					if t.ID == s.starveID {
+						victim = i
+					}
+				}
+				m := n
+				if victim >= 0 {
+					m--
+				}
+				if m == 1 {
+					pick = 0
+					if victim == 0 {
+						pick = 1
+					}
+				} else {
+					stay := curIdx >= 0 && curIdx != victim && s.tape.S.Draw(100) <= 100-s.switchPct
+					if stay {
+						pick = curIdx
+					} else {
+						k := s.tape.S.Draw(m)
+						if victim >= 0 && k >= victim {
+							k++
+						}
+						pick = k
+					}
+				}
+			case curIdx >= 0:
 				// candidates: current first, then the others by id
 				sw := s.force
 				if !sw {
@@ -405,7 +479,7 @@ func (s *Sim) loop() *Result {
 				} else {
 					pick = curIdx
 				}
-			} else {
+			default:
 				pick = s.tape.S.Draw(n)
 			}
 		}
